@@ -93,9 +93,31 @@ def labelToASCII (l : Bytes) : R :=
     | some cps =>
       if cps.all (fun c => c < 128 || caseless c) && cps.length < 200 then .ok (punyEncode cps) else .noclaim
 
-/-- `idna.Punycode.ToASCII(strings.ToLower(h))`; also reports the lower-cased input -/
-def toASCII (h : Bytes) : R :=
-  let lh := h.map fun c => if 65 ≤ c && c ≤ 90 then c + 32 else c
+/-- `unicode.ToLower` on the letters the model knows: ASCII, Latin-1, Greek and Cyrillic capitals -/
+def lowerCp (c : Nat) : Nat :=
+  if 65 ≤ c && c ≤ 90 then c + 32
+  else if 0xC0 ≤ c && c ≤ 0xDE && c != 0xD7 then c + 32
+  else if 0x391 ≤ c && c ≤ 0x3A9 && c != 0x3A2 then c + 32
+  else if 0x410 ≤ c && c ≤ 0x42F then c + 32
+  else if 0x400 ≤ c && c ≤ 0x40F then c + 80
+  else c
+
+/-- code points whose lower-casing the model knows -/
+def knownCase (c : Nat) : Bool :=
+  c < 128 || caseless c || (0xC0 ≤ c && c ≤ 0xDE && c != 0xD7) || (0x391 ≤ c && c ≤ 0x3A9 && c != 0x3A2)
+  || (0x400 ≤ c && c ≤ 0x42F)
+
+def utf8Enc (cps : List Nat) : Bytes := (String.ofList (cps.map Char.ofNat)).toUTF8.toList
+
+/-- `strings.ToLower(h)`; `none` = ill-formed UTF-8 or a letter outside what the model knows -/
+def lowerHost (h : Bytes) : Option Bytes :=
+  if h.all (· < 128) then some (h.map fun c => if 65 ≤ c && c ≤ 90 then c + 32 else c)
+  else match utf8Dec h with
+    | none => none
+    | some cps => if cps.all knownCase then some (utf8Enc (cps.map lowerCp)) else none
+
+/-- the labels of a lower-cased host brought to ASCII -/
+def toASCIILower (lh : Bytes) : R :=
   let labels := splitOn 46 lh
   let rec go : List Bytes → Option (List Bytes) → R
     | [], some acc => .ok (([46] : Bytes).intercalate acc.reverse)
@@ -106,5 +128,11 @@ def toASCII (h : Bytes) : R :=
       | r => r
     | _ :: _, none => .noclaim
   go labels (some [])
+
+/-- `idna.Punycode.ToASCII(strings.ToLower(h))` -/
+def toASCII (h : Bytes) : R :=
+  match lowerHost h with
+  | none => .noclaim
+  | some lh => toASCIILower lh
 
 end GN.Url.Idna
